@@ -366,6 +366,14 @@ class CallMixin:
                 e[a] = self.mod_lookup(self.d.mod, a)
             else:
                 raise Unsupported(f'contract function parameter {a} not bound')
+        if getattr(fn, '__closure__', None):
+            for nm, cell in zip(fn.__code__.co_freevars, fn.__closure__):
+                try:
+                    v = cell.cell_contents
+                except ValueError:
+                    continue
+                if v is None or isinstance(v, (bool, int, str)):
+                    e.setdefault(nm, lift(v))
         fr = Frame(e, self.d.spec_mod_of(fn))
         self.specmode += 1
         try:
